@@ -102,6 +102,8 @@ REF_POS = {
     "groupby_same": lambda Q, x, x2: Q.from_(T()).select(x, FN.Count("*").as_("n")).groupby(x2),
     "orderby_same": lambda Q, x, x2: Q.from_(T()).select(x).orderby(x2),
     "setop_orderby_same": lambda Q, x, x2: Q.from_(T()).select(x).union(Q.from_(Table("u")).select(Table("u").k)).orderby(x2),
+    # the alias is defined only by the SECOND operand: result columns are named by the first, so it is undefined
+    "setop_orderby_alias_of_later_operand": lambda Q, x, x2: Q.from_(T()).select(T().k).union(Q.from_(Table("u")).select(x)).orderby(x2),
 }
 
 
@@ -251,8 +253,15 @@ def run_case(case):
             # split at GROUP BY / ORDER BY: references after it, definitions before it
             kw = "GROUP" if pos == "groupby_same" else "ORDER"
             cut = max([i for i, t in enumerate(toks) if t.kind == "WORD" and t.value == kw] or [len(toks)])
-            defs = [i for i in ap if i < cut]
-            refs = [i for i in ap if i > cut]
+            first_end = cut
+            if pos.startswith("setop"):
+                # only the first operand names the result columns of a compound select
+                first_end = min([i for i, t in enumerate(toks) if t.kind == "WORD" and t.value in ("UNION", "INTERSECT", "EXCEPT", "MINUS")] or [cut])
+            defs = [i for i in ap if i < first_end]
+            # a *reference* is a bare alias token standing for the whole item (directly after BY or a comma); an alias
+            # printed after the item's own expression is the operand-printing defect, reported at the operand positions
+            refs = [i for i in ap if i > cut and ((toks[i - 1].kind == "WORD" and toks[i - 1].value == "BY")
+                                                  or (toks[i - 1].kind == "OP" and toks[i - 1].text == ","))]
             if refs and not defs:
                 res.violate("C12|%s|%s|reference-to-undefined-alias" % (cls_of(name, term), pos),
                             "%s BY names the alias although the select list does not define it" % kw, dialect=d, term=name, sql=sql)
